@@ -302,6 +302,24 @@ func (w *World) RetiredAt(id graphsync.RequestID) int64 {
 	return w.retired[id]
 }
 
+// ConfirmStable decides a "nothing more will happen" verdict: cond describes the suspicious state ("" = fine).
+// It is a violation only if it still holds after a window in which the system stayed quiescent throughout
+// (no event at all); if the suspicious state persists but such a window never occurs (a slow or busy
+// system), the verdict is inconclusive.
+func (w *World) ConfirmStable(cond func() string, window time.Duration) (violation, inconclusive string) {
+	v := cond()
+	for try := 0; try < 12 && v != ""; try++ {
+		if ok, _ := w.Q.Sustained(window); ok {
+			return cond(), ""
+		}
+		v = cond()
+	}
+	if v != "" {
+		return "", "suspicious state persists but the system never stayed quiet for " + window.String() + ": " + v
+	}
+	return "", ""
+}
+
 // Quiesce waits for (weak) logical quiescence; false = watchdog (inconclusive).
 func (w *World) Quiesce() (bool, string) { return w.Q.Await(5, 60*time.Second) }
 
